@@ -10,7 +10,7 @@ EXTENDS Conn, Json, IOUtils
 Trace == ndJsonDeserialize(IOEnv.TRACE)
 RES == JsonDeserialize(IOEnv.RES)               \* query -> <<result at version 0, 1, ...>> as the real executor computes it
 I3 == {"1", "2", "3", ""}
-Q5 == {"qa", "qb", "qf", "qbad", "qm"}
+Q5 == {"qa", "qb", "qf", "qbad", "qm", "qg"}
 ResFromFile == [q \in Q5 |-> [v \in 0..(Len(RES[q]) - 1) |-> RES[q][v + 1]]]
 MaxSubsEnv == CHOOSE n \in 1..9 : ToString(n) = IOEnv.MAXSUBS
 K == 3
